@@ -124,13 +124,20 @@ func VerifBinaryArrayNumbers() {
 	vrt.Assume(s[0] < 0x80)
 	members := []any{x, string(s)}
 	if vrt.Choice("withBig", 2) == 1 {
-		members = append(members, new(big.Int).SetUint64(vrt.Uint64("big")))
+		// big integer member of up to 128 bits, either sign (hi = 0: one machine word)
+		bg := new(big.Int).SetUint64(vrt.Uint64("bighi"))
+		bg.Lsh(bg, 64)
+		bg.Or(bg, new(big.Int).SetUint64(vrt.Uint64("big")))
+		if vrt.Choice("bigneg", 2) == 1 {
+			bg.Neg(bg)
+		}
+		members = append(members, bg)
 	}
 	br, err := toBitReaderEx(members, false)
 	inRange := x >= 0 && x <= 255
 	if len(members) == 3 {
 		bg := members[2].(*big.Int)
-		inRange = inRange && bg.IsUint64() && bg.Uint64() <= 255
+		inRange = inRange && bg.Sign() >= 0 && bg.IsUint64() && bg.Uint64() <= 255
 	}
 	if !inRange {
 		vrt.Assert(err != nil, "binary array: a number outside 0..255 is an error, never a wrapped byte")
